@@ -439,6 +439,31 @@ def hunt2_rules(chk, repo):
     else:
         chk.violation("C20.accept", cm, "self._connections[handler] = transport", "if <shutting down>: handler.close(); transport.close()",
                       "a connection accepted before the sites stopped but established afterwards (a TLS handshake that completes during shutdown) is invisible to the shutdown sequence: it is not in the gather(), _connections.clear() forgets it, a request on it is answered during shutdown and the connection is still open - and served - after cleanup() returned and the cleanup contexts exited")
+    # ---- C20.accept.queue (round 6, seed C20-6): a connection that was told to close takes no further request from its queue ------------------------
+    # close() (Server.pre_shutdown) lets the request in progress finish; data_received() still feeds the parser for that request's body, so a
+    # pipelined request sent after the shutdown began is parsed and queued.  It must stay in the queue: every way round the loop of start()
+    # back to `self._messages.popleft()` passes a test that establishes `not self._close`.
+    st = repo.func(PROTO, "RequestHandler.start")
+    gs = cfg_of(st.node)
+    pops = [n for n in gs.nodes if n.in_finally_copy is None and isinstance(getattr(n, "ast", None), ast.AST) and n.kind == "stmt" and K.node_has(n, "self._messages.popleft()")]
+    if not pops:
+        chk.analysis_error("C20.accept.queue: `self._messages.popleft()` not found in RequestHandler.start")
+    else:
+        def establishes(a, b, k):
+            if a.kind != "test" or k not in ("T", "F"):
+                return False
+            try:
+                cl = norm.cnf_raw(a.ast, k == "T")
+            except Exception:
+                return False
+            return any(len(c_) == 1 and not l.pos and l.text == "self._close" for c_ in cl for l in c_)
+        back = K.find_path_edges(gs, pops, lambda n: n in pops, lambda n: False, establishes, EXPLICIT)
+        if back is None:
+            chk.ok("C20.accept.queue", pops[0].ast, "start(): the next queued request is taken only after a test that close() has not been requested")
+        else:
+            chk.violation("C20.accept.queue", pops[0].ast, K.short(pops[0].ast), "if self._keepalive and not self._close and not self._force_close: ... else: break",
+                          "start() goes round its loop and takes the next message although close() was requested: during shutdown data_received() still feeds the parser for the request in progress, so a request the client pipelines after the shutdown began is queued - and now handled and answered, although no new requests are accepted on shutdown",
+                          path=gs.fmt_path(back))
     # ---- C20.flush: an idle connection still flushing a finished response is closed when the shutdown timeout expires ---------------------------
     sh = repo.func(PROTO, "RequestHandler.shutdown")
     fc = [c for c in prog.calls_in(sh.node) if norm.raw(c.func) == "self.force_close"]
